@@ -115,6 +115,24 @@ pub fn judge_hide(ctx: &mut Ctx, c: &HideCase) {
             _ => ctx.violate("C12:depends-on-unused-padding", format!("changing alignment-padding octets {}..16 (not needed to reach a multiple of 16) changed the output", used), c.witness()),
         }
     }
+    // the same hide on a fresh thread, in its body and from thread-local destructors at teardown
+    if ctx.tier != Tier::Miri && c.lp.len() <= 2000 && c.secret.len() <= 4096 && ctx.rng.chance(1, 32) {
+        let direct: Out<Vec<u8>> = Out::Ok(want.clone());
+        let (a, secret, rv, lp, ap) = (c.a.clone(), c.secret.clone(), c.rv, c.lp.clone(), c.ap);
+        thread_env_check(
+            ctx,
+            "C12",
+            &direct,
+            move || match exec::hide(glue::avp_to_crate(&a).unwrap(), &secret, rv, &lp, &ap) {
+                Ok(h) => match hidden_value(&h) {
+                    Some((_, v)) => Out::Ok(v),
+                    None => Out::Ok(vec![]),
+                },
+                Err(p) => Out::Panic(p),
+            },
+            c.witness(),
+        );
+    }
     // independence from call history: unrelated calls in between, then repeat
     {
         let other = random_case(&mut ctx.rng);
